@@ -3,3 +3,4 @@
 (t "sanitise_imports" gf "module parkind\n  implicit none\n  integer, parameter :: jprb = 8, jpim = 4\nend module parkind\nmodule mm\n  use parkind, only: jprb, jpim\n  implicit none\n  real(kind=jprb) :: modvar\n  integer(kind=jpim) :: modint\ncontains\n  subroutine s(x)\n    real(kind=jprb), intent(inout) :: x\n    x = x + 1.0_jprb\n  end subroutine s\nend module mm\n")
 (t "remove_unused_vars(all)" gf "subroutine kernel(a, n)\n  implicit none\n  integer, intent(in) :: n\n  integer, intent(inout) :: a(n)\n  integer :: i1\n  do i1 = 1, n\n    a(i1) = 0\n  end do\nend subroutine kernel\n")
 (t "resolve_vector_notation" gf "subroutine kernel(a)\n  implicit none\n  integer, intent(inout) :: a(3)\n  a(:2) = 0\nend subroutine kernel\n")
+(t "normalize_array_shape_and_access" gf "subroutine kernel(b)\n  implicit none\n  real, intent(inout) :: b(-2:-1)\n  b(-1:-2:-1) = b(-2:-1)\nend subroutine kernel\n")
